@@ -300,6 +300,7 @@ class World:
         self.tx_hook = None
         self.close_hook = None
         self.open_hook = None
+        self.sched = None
         self.select_calls = 0
         self.max_select = 100000
 
@@ -354,6 +355,8 @@ class World:
         self.clock.advance_ms(int(round(secs * 1000)))
         if self.sleep_hook:
             self.sleep_hook(secs)
+        if self.sched is not None:
+            self.sched.yield_point("sleep")
 
     def _new_socket(self) -> FakeSocket:
         self.attempt_times.append(self.clock.ms)
@@ -390,6 +393,13 @@ class World:
                 raise TypeError("argument must be an int, or have a fileno() method")
             if s.fileno() < 0:
                 raise ValueError("file descriptor cannot be a negative integer (-1)")
+        if self.sched is not None and self.sched.me() is not None:
+            def ready():
+                return any(self._readable(s) for s in rlist) or any(self._writable(s) for s in wlist)
+            if not self.sched.block_until(ready, "select", can_timeout=True):
+                if timeout:
+                    self.clock.advance_ms(int(round(timeout * 1000)))
+                return ([], [], [])
         for _ in range(2):
             r = [s for s in rlist if self._readable(s)]
             wr = [s for s in wlist if self._writable(s)]
